@@ -268,20 +268,25 @@ fn eligible(call: Call, k: Kind) -> bool {
 pub fn check_counts(sc: &Scenario, h: &History, infos: &[SysInfo], ro: &RunOut, out: &mut Vec<Violation>) {
     // top-level calls
     let mut prev: Vec<u64> = vec![0; infos.len()];
+    let mut after_panic = false;
     for (ci, c) in ro.calls.iter().enumerate() {
         if c.panic.is_some() {
             prev = c.runs_after.clone();
+            after_panic = true;
             continue;
         }
         for i in infos.iter().filter(|i| i.parent.is_none()) {
             let delta = c.runs_after[i.sid] - prev[i.sid];
             let want = eligible(c.call, i.kind) as u64;
             if delta != want {
-                out.push(vio(
-                    "C04",
-                    if delta < want { "skipped" } else { "ran-twice" },
-                    format!("call #{} ({:?}): top-level system {} ran {} time(s), expected {}", ci, c.call, i.sid, delta, want),
-                ));
+                let msg = format!("call #{} ({:?}): top-level system {} ({:?}) ran {} time(s), expected {}", ci, c.call, i.sid, i.kind, delta, want);
+                out.push(vio("C04", if delta < want { "skipped" } else { "ran-twice" }, msg.clone()));
+                if after_panic {
+                    out.push(vio("C14", "redispatch-incomplete", format!("after a caught panic in an earlier dispatch: {}", msg)));
+                }
+                if i.kind == Kind::Tl && delta < want {
+                    out.push(vio("C12", "tl-not-run", msg));
+                }
             }
         }
         prev = c.runs_after.clone();
@@ -333,6 +338,20 @@ pub fn check_counts(sc: &Scenario, h: &History, infos: &[SysInfo], ro: &RunOut, 
         for ch in &children {
             let total = h.occs.iter().filter(|o| o.sid == ch.sid && o.enter > b.enter && o.enter <= b.end).count();
             if total != bi_info.times as usize {
+                if ch.kind == Kind::Tl && total < bi_info.times as usize {
+                    out.push(vio(
+                        "C12",
+                        "tl-not-run",
+                        format!("thread-local system {} inside batch {} ran {} time(s) during one run of the batch, the controller dispatched {} time(s)", ch.sid, b.sid, total, bi_info.times),
+                    ));
+                }
+                if ro.calls.iter().any(|c| c.panic.is_some() && c.last_seq <= b.enter) {
+                    out.push(vio(
+                        "C14",
+                        "redispatch-incomplete",
+                        format!("after a caught panic in an earlier dispatch: system {} inside batch {} ran {} time(s), the controller dispatched {} time(s)", ch.sid, b.sid, total, bi_info.times),
+                    ));
+                }
                 out.push(vio(
                     "C04",
                     if total < bi_info.times as usize { "inner-skipped" } else { "inner-ran-twice" },
